@@ -14,8 +14,9 @@ RULE = ("seeded single-threaded scripts (allocate/free/deallocate/realloc/get_si
         "(scenario kind, thread count, policy) triples that completed; replay leg: 'rlog' scenarios (the mix workload with per-thread "
         "call logs and a global order of call entries and critical sections) replayed on the extracted concrete concurrent model, "
         "every returned address compared, the theorems' per-step hypotheses checked on every replayed step")
-TRUSTED = ["translator/gen_slabconc.py (clang 14 JSON AST -> coq/Gen/SlabSkeleton.v; pointer-provenance Fresh/Alias/Store "
-           "events are a syntactic approximation)",
+TRUSTED = ["translator/gen_slabconc.py (clang 14 JSON AST -> coq/Gen/SlabSkeleton.v, SlabSkeletonTR.v; pointer-provenance Fresh/Alias/Store "
+           "events are a syntactic approximation; mutable static storage and poison-family policy calls on a block after its "
+           "publication (Store) are reported as accesses to fields outside the lock table, flow-insensitively in source order)",
            "field -> lock table field_class in coq/SlabConc/Skeleton.v",
            "extraction: ExtrOcamlBasic only; OCaml 4.13.1; comp/slabconc/driver.ml (prints shapes of coq/SlabConc/Shapes.v, proved sound in ShapesSound.v)",
            "harness comp/slabconc/harness.cpp (instrumented Mutex = std::mutex + per-thread counter; g++ -fsanitize=thread and "
@@ -30,7 +31,10 @@ TRUSTED = ["translator/gen_slabconc.py (clang 14 JSON AST -> coq/Gen/SlabSkeleto
 ASSUMPTIONS = ["the Mutex template argument is a correct mutex (lock() blocks while held, unlock() releases; modelled as such)",
                "API preconditions of C01 (free/realloc only of live blocks); FRG_ASSERT failures are documented stops",
                "Policy::map returns memory disjoint from everything mapped and not unmapped (fresh blocks in the abstract allocator)",
-               "FRG_SLAB_TRACK_REGIONS undefined and enable_checking == false (as in /repo): _verify_* is compiled out",
+               "enable_checking == false (as in /repo; the translator checks the constant and that _verify_* is only called under it): "
+               "the _verify_* walkers are not part of the API paths.  The lock discipline is checked for the source preprocessed "
+               "without AND with FRG_SLAB_TRACK_REGIONS (Gen/SlabSkeletonTR.v, skeleton_disciplined_track_regions); the harness, the "
+               "concrete model and the TSan legs use the default build (macro undefined)",
                "numUsedPages() is not part of the concurrent API mix (it reads _usedPages without _tree_mutex)",
                "concrete concurrent model: a pointer passed to free/deallocate/realloc is live and not the argument or pending result of "
                "another in-flight call; non-zero map() answers are disjoint from mapped frames and from the private regions of "
@@ -158,7 +162,7 @@ def classify_crash(text):
 def run(c):
     # ---- source-derived skeleton, regenerated on every run
     gok, gmsg = regen()
-    c.gen_obligation("Gen/SlabSkeleton.v regenerated from the clang AST of slab.hpp", gok, gmsg)
+    c.gen_obligation("Gen/SlabSkeleton.v and Gen/SlabSkeletonTR.v (-DFRG_SLAB_TRACK_REGIONS) regenerated from the clang AST of slab.hpp", gok, gmsg)
     res = {}
 
     def b_model():
